@@ -359,6 +359,17 @@ func runConcCase(env *seqEnv, trNo int, cc *ConcCase) (*Trace, error) {
 		for _, or := range toEmit {
 			emit(or)
 		}
+		// the projection is only the state "after this commit" if nothing else committed while it was taken
+		// (a process that was blocked on a lock may have resumed concurrently): otherwise the case is dropped
+		if len(toEmit) > 0 {
+			later := ctl.Records()
+			for _, r := range later[recPos:] {
+				if r.Site == "txn.committed" && r.Proc != "" && r.Proc != toEmit[0].proc && !isBackground(r.Proc) {
+					return errOverlap
+				}
+			}
+			recPos = len(later)
+		}
 		return nil
 	}
 	if err := afterStep(); err != nil {
